@@ -3,6 +3,8 @@ package quicwire
 import (
 	"bytes"
 	"fmt"
+	"os"
+	"strconv"
 	"testing"
 
 	"pgregory.net/rapid"
@@ -476,14 +478,19 @@ func TestVP_C22(t *testing.T) {
 	vp.Run(t, vp.Spec[c22Case]{ID: "C22", Gen: c22Gen, Prop: c22Prop})
 }
 
-// TestVP_C22_enum: the first 2^20 values (2^24 in the thorough tier) and a band
+// TestVP_C22_enum: the first 2^20 values (plus a per-shard block of 2^22 values in the thorough tier) and a band
 // around every encoding-size boundary completely, and every two-byte prefix
 // (65536) at every input length 1..9.
 func TestVP_C22_enum(t *testing.T) {
 	vp.RunEnum(t, "C22", "enum", false, func(e *vp.Enum) {
 		limit := uint64(1) << 20
+		// thorough tier: every shard additionally walks its own block of 2^22 values
+		// above 2^20 (16 shards: everything below 2^26 + 2^20)
+		var extLo, extHi uint64
 		if vp.Thorough() {
-			limit = 1 << 24
+			shard, _ := strconv.Atoi(os.Getenv("VP_SHARD"))
+			extLo = limit + uint64(shard)<<22
+			extHi = extLo + 1<<22
 		}
 		check := func(v uint64) bool {
 			if err := c22Safe(func() error { return c22CheckValue(v, nil, nil) }); err != nil {
@@ -499,9 +506,14 @@ func TestVP_C22_enum(t *testing.T) {
 				return
 			}
 		}
+		for v := extLo; v < extHi; v++ {
+			if !check(v) {
+				return
+			}
+		}
 		for _, edge := range []uint64{1 << 30, 1 << 32, 1 << 62} {
 			for v := edge - 4096; v < edge+4096 && v <= c22Max; v++ {
-				if v < limit {
+				if v < limit || (v >= extLo && v < extHi) {
 					continue
 				}
 				if !check(v) {
@@ -512,7 +524,7 @@ func TestVP_C22_enum(t *testing.T) {
 		for k := 21; k < 62; k++ {
 			for d := -2; d <= 2; d++ {
 				v := uint64(int64(1)<<k + int64(d))
-				if v < limit || (v >= 1<<30-4096 && v < 1<<30+4096) || (v >= 1<<32-4096 && v < 1<<32+4096) || v >= 1<<62-4096 {
+				if v < limit || (v >= extLo && v < extHi) || (v >= 1<<30-4096 && v < 1<<30+4096) || (v >= 1<<32-4096 && v < 1<<32+4096) || v >= 1<<62-4096 {
 					continue
 				}
 				if !check(v) {
@@ -540,6 +552,9 @@ func TestVP_C22_enum(t *testing.T) {
 				}
 				e.Eval(!ok || n >= 2, cls, func() any { return c22Case{Kind: "raw", Raw: append([]byte{}, raw...)} })
 			}
+		}
+		if extHi > extLo {
+			e.Note(fmt.Sprintf("this shard also checked every value in [%d, %d)", extLo, extHi))
 		}
 		e.Note(fmt.Sprintf("values 0..%d, +-4096 around 2^30, 2^32 and below 2^62, 2^k+-2 for k=21..61: all checked; all 65536 two-byte prefixes at input lengths 1..9", limit-1))
 	})
